@@ -23,6 +23,7 @@ META = {
 META["technique"] = "static analysis: dominance / provenance / typestate rules over rustc MIR facts (rustc_private driver) + path-partitioned abstract interpretation in a linear-inequality domain (view-length balance; Fourier-Motzkin emptiness, no execution, no external solver)"
 META["explanation"] += " R13.6 in the batched container's push_into_* / filter_map functions (helpers inlined, combinators desugared) the accumulated batch is only grown: nothing an adapter produced for a source batch is discarded."
 META["explanation"] += ' R13.7 the diffs an adapter produces for one source diff enter the batch front to back (no pop() of the per-diff result without reverse(), no rev()).'
+META["explanation"] += ' R13.7 also requires the whole per-diff answer of the adapter to enter the batch (no next / next_back / nth / take on it outside a draining loop). R13.8 every diff of a batch reaches the translator (no filter / skip / take / retain on the batch before map_diffs).'
 
 VEC_IMPL = "std::vec::Vec<eyeball_im::VectorDiff<T>>"
 ONE_IMPL = "eyeball_im::VectorDiff<T>"
@@ -46,6 +47,7 @@ def run(ctx):
     r13_3(ctx, vimp)
     r13_6(ctx, vimp)
     r13_7(ctx, vimp)
+    r13_8(ctx, vimp)
     ads = find_adapters(F)
     register_roles(ctx, ads)
     for name in ADAPTERS:
@@ -266,5 +268,50 @@ def r13_7(ctx, imp):
             if contains(e, lambda y: y[0] == "call" and isinstance(y[1], str) and re.search(r"call_mut$|call_once$", y[1])):
                 bad += 1
                 ctx.violated("R13.7", f, "group-order-preserved", b.line_at((blk, 10 ** 6)), "`%s` iterates the diffs produced for one source diff in reverse" % f.name)
+        # ... and completely: an adapter may answer one source diff with any number of diffs (Tail: one PopFront per evicted item);
+        # taking single items out of the per-diff result (next / next_back / nth / take ..) instead of draining it drops the rest
+        def from_group(e):
+            return contains(e, lambda y: y[0] == "call" and isinstance(y[1], str) and re.search(r"call_mut$|call_once$|::call$", y[1]))
+        for blk, t in b.calls(r"Iterator>?::(next_back|nth|nth_back|last|take|skip|step_by|take_while|skip_while|filter|find|max|min|max_by|min_by)$|(SmallVec|ArrayVec)::<.*>::(first|last|swap_remove|truncate|remove)$"):
+            if t["args"] and from_group(b.expr_of_op(t["args"][0])):
+                bad += 1
+                ctx.violated("R13.7", f, "whole-group-enters-the-batch", b.line_at((blk, 10 ** 6)),
+                             "`%s` takes single items (`%s`) out of what the adapter produced for one source diff: an adapter that answers with more diffs than expected (Tail evicting several items) loses the others, and the batched view differs from the unbatched one" % (f.name, (t.get("callee") or "").split("::")[-1]))
+        for blk, t in b.calls(r"Iterator>?::next$"):
+            if t["args"] and from_group(b.expr_of_op(t["args"][0])):
+                succ = b.normal_succ(blk)
+                in_loop = any(blk in b.reachable_from(x) for x in succ)
+                if not in_loop:
+                    bad += 1
+                    ctx.violated("R13.7", f, "whole-group-enters-the-batch", b.line_at((blk, 10 ** 6)),
+                                 "`%s` takes one item (`next()`, not in a loop) out of what the adapter produced for one source diff: the remaining diffs of that answer are dropped" % f.name)
     if not bad:
         ctx.holds("R13.7", None, "group-order-preserved", None, "%d batched push_into_* functions: per-diff results enter the batch front to back" % n)
+
+
+
+def r13_8(ctx, imp):
+    """every diff of a batch reaches the translator: the batched `push_into_*` hand `self`'s diffs to `map_diffs` one by one, all of
+    them. Skipping some (a "superseded" Set, a diff that "cannot matter") is unsound in general - the translators keep a replica of
+    the source that every diff updates, and indices of later diffs are relative to all earlier ones."""
+    F = ctx.facts
+    n = 0
+    bad = 0
+    SKIPS = r"Iterator>?::(filter|filter_map|skip|take|step_by|skip_while|take_while|map_while|scan|nth|dedup\w*)$|^std::vec::Vec::<.*>::(retain|retain_mut|dedup\w*|truncate|drain|remove|swap_remove|pop|split_off)$"
+    for p in imp["fns"]:
+        f = F.fn(UT, p)
+        if f is None or not f.built or not f.name.startswith("push_into_"):
+            continue
+        n += 1
+        b = f.built
+        for blk, t in b.calls(SKIPS):
+            if not t["args"]:
+                continue
+            e = b.expr_of_op(t["args"][0])
+            if contains(e, lambda y: y[0] == "param" and y[1] == 1):
+                bad += 1
+                ctx.violated("R13.8", f, "every-diff-reaches-the-translator", b.line_at((blk, 10 ** 6)),
+                             "`%s` applies `%s` to the batch before handing its diffs to the adapter's translator: a diff that is skipped never updates the adapter's replica of the source, and the indices of all later diffs are off" % (f.name, (t.get("callee") or "").split("::")[-1]))
+    if not bad:
+        ctx.holds("R13.8", None, "every-diff-reaches-the-translator", None, "%d batched push_into_* functions hand every diff of the batch to the translator" % n)
+    ctx.floor("R13.8", n, 4)
